@@ -381,6 +381,10 @@ impl Database {
         };
 
         db.ensure_system_tables()?;
+        // the system tables have taken table ids 1 and 2: persist the counters, otherwise a
+        // database that is closed before its first CREATE TABLE hands the same ids out again
+        // after reopen (and WAL recovery, keyed by table id, replays into the wrong file)
+        db.save_meta()?;
 
         Ok(db)
     }
